@@ -1631,11 +1631,137 @@ def ev_align(case):
             if plain(t.entries) != entries or t.minTimestamp != lo or t.maxTimestamp != hi:
                 res.append(("alignBoundariesAcrossTiers: the reference tier is modified", entries, plain(t.entries)))
         else:
-            res.extend(_check_dejitter_result("alignBoundariesAcrossTiers: non-reference %s tier" %
-                                              ("interval" if kind == "I" else "point"), kind, entries, refs, md, t, None))
+            r1 = _check_dejitter_result("alignBoundariesAcrossTiers: non-reference %s tier" %
+                                        ("interval" if kind == "I" else "point"), kind, entries, refs, md, t, None)
+            if r1 and _only_float_noise(kind, entries, refs, md, plain(t.entries)):
+                r1 = [(NOISE_CAT, r1[0][1], plain(t.entries))]
+            res.extend(r1)
         if res:
             break
     return res
+
+
+NOISE_CAT = ("alignBoundariesAcrossTiers: a non-reference tier within maxDifference was left un-aligned "
+             "(timestamps differ only by float noise)")
+
+
+def _only_float_noise(kind, entries, refs, md, got):
+    """the tier came back unchanged, and what it should have become differs from it only by float noise
+    (every expected timestamp within 1e-9 relative of the original one, at least one not bit-identical)"""
+    orig = sorted(entries) if kind == "P" else entries
+    if sorted(got) != sorted(orig):
+        return False
+    goods, _ill = _dejitter_outcomes(kind, entries, refs, md)
+    for g in goods:
+        fe = [x for e in g for x in e[:-1]]
+        fo = [x for e in orig for x in e[:-1]]
+        if len(fe) == len(fo) and fe != fo and all(math.isclose(a, b, rel_tol=1e-9, abs_tol=1e-12) for a, b in zip(fe, fo)):
+            return True
+    return False
+
+
+def _noise_pairs():
+    """(reference time, the 'same' time as another computation produces it): differences 1e-17 .. 1e-10"""
+    cands = [(0.3, 0.1 + 0.2), (3.3, 1.1 + 2.2), (0.7, 0.1 * 7), (1.0, sum([0.1] * 10)), (0.6, 0.2 * 3), (1.2, 0.4 * 3),
+             (2.4, 0.8 * 3), (4.35, 4.35 * 100 / 100), (5.1, 1.7 * 3), (1.9, 1.9 + 1e-12), (2.8, 2.8 * (1 + 1e-10)),
+             (4.0, 4.0 - 1e-11), (0.0, 1e-13), (6.2, 6.2 - 3e-16 * 6.2), (7.3, 7.3 * (1 - 1e-10)), (8.1, 2.7 * 3)]
+    out = [(r, n) for r, n in cands if r != n and abs(r - n) <= 1e-9 * max(1.0, abs(r))]
+    return sorted(out)
+
+
+def _noise_case(pairs, sel, rtype, md, shape, order):
+    """sel: indices into pairs used as reference times.  Non-reference tiers:
+    N_I / N_P: interval / point tier whose timestamps are the float-noise twins of the reference times;
+    M_I: intervals with one float-noise boundary and one really jittered boundary;
+    J_I / J_P: tiers that need a real adjustment (md/2 away) ; X: a tier far from every reference time."""
+    chosen = [pairs[i] for i in sel]
+    refs = [r for r, _n in chosen]
+    noisy = [n for _r, n in chosen]
+    hi = 10.0
+    tiers = []
+    for code in shape:
+        if code == "N_I":
+            ents = [[a, b, "w%d" % i] for i, (a, b) in enumerate(zip(noisy, noisy[1:]))]
+            tiers.append({"type": "I", "entries": ents})
+        elif code == "N_P":
+            tiers.append({"type": "P", "entries": [[n, "m%d" % i] for i, n in enumerate(noisy)]})
+        elif code == "M_I":
+            ents = [[noisy[i], refs[i + 1] - md / 2, "v%d" % i] for i in range(0, len(refs) - 1, 2)]
+            tiers.append({"type": "I", "entries": ents})
+        elif code == "J_I":
+            ents = [[a + md / 2, b - md / 2, "j%d" % i] for i, (a, b) in enumerate(zip(refs, refs[1:]))]
+            tiers.append({"type": "I", "entries": ents})
+        elif code == "J_P":
+            tiers.append({"type": "P", "entries": [[r + md / 2, "k%d" % i] for i, r in enumerate(refs)]})
+        elif code == "X":
+            tiers.append({"type": "P", "entries": [[r + 0.45, "x%d" % i] for i, r in enumerate(refs)]})
+    tiers.insert(order % (len(tiers) + 1), "REF")
+    return {"k": "align", "tiers": tiers, "hi": hi, "ref": {"type": rtype, "times": refs}, "maxdiff": md, "noise": True}
+
+
+NOISE_SHAPES = [["N_I"], ["N_P"], ["N_I", "N_P"], ["J_I", "N_I"], ["N_P", "J_P"], ["N_I", "J_P", "N_P"], ["M_I"],
+                ["J_I", "M_I", "N_P"], ["X", "N_I", "J_I", "N_P"], ["N_P", "X"]]
+
+
+def t_c14_align_noise(acc, maxsel):
+    """every choice of 1..maxsel reference times among the noise pairs x reference class x maxDifference x tier shapes"""
+    pairs = _noise_pairs()
+    k = 0
+    for n in range(1, maxsel + 1):
+        for sel in itertools.combinations(range(len(pairs)), n):
+            for rtype in ("P", "I"):
+                if rtype == "I" and n < 2:
+                    continue
+                for md in (0.005, 0.05):
+                    for shape in NOISE_SHAPES:
+                        if n < 2 and any(c.endswith("_I") for c in shape):
+                            continue
+                        k += 1
+                        case = _noise_case(pairs, sel, rtype, md, shape, k)
+                        acc.run(ev_align, case)
+
+
+def t_c14_align_noise_rnd(acc, seed, count):
+    """random: reference times with 1-3 decimals, non-reference timestamps re-computed by a different float
+    expression (sums of parts, scale and unscale) so that they differ by rounding only; mixed with real jitter"""
+    rng = random.Random(seed)
+    for _ in range(count):
+        md = rng.choice([0.001, 0.005, 0.05])
+        n = rng.randint(2, 6)
+        refs = sorted(set(round(rng.uniform(0.2, 9.5), rng.choice([1, 2, 3])) for _ in range(n)))
+        refs = [r for i, r in enumerate(refs) if i == 0 or r - refs[i - 1] > 4 * md]
+        if len(refs) < 2:
+            continue
+
+        def twin(r):
+            u = rng.randrange(5)
+            if u == 0:
+                a = round(r * rng.uniform(0.2, 0.8), 3)
+                return a + (r - a)
+            if u == 1:
+                return r * 3 / 3
+            if u == 2:
+                return (r + 0.1) - 0.1
+            if u == 3:
+                return r * (1 + rng.choice([-1, 1]) * 1e-10)
+            return r / 7 * 7
+
+        tiers = []
+        for _t in range(rng.randint(1, 4)):
+            kind = rng.choice(["I", "P"])
+            stamps = []
+            for r in refs:
+                u = rng.random()
+                stamps.append(twin(r) if u < 0.6 else (r + rng.choice([-1, 1]) * md * rng.uniform(0.1, 0.9) if u < 0.85 else r))
+            if kind == "I":
+                ents = [[a, b, "w%d" % i] for i, (a, b) in enumerate(zip(stamps, stamps[1:])) if a < b and rng.random() < 0.8]
+            else:
+                ents = [[a, "m%d" % i] for i, a in enumerate(stamps) if rng.random() < 0.8]
+            tiers.append({"type": kind, "entries": ents})
+        tiers.insert(rng.randint(0, len(tiers)), "REF")
+        case = {"k": "align", "tiers": tiers, "hi": 10.0, "ref": {"type": rng.choice(["P", "I"]), "times": refs},
+                "maxdiff": md, "noise": True}
+        acc.run(ev_align, case)
 
 
 def t_c14_align_grid(acc, refsize, part=0, nparts=1):
@@ -1789,6 +1915,10 @@ def run_c14(tier, seed, jobs):
         np_ = {3: 16, 2: 12}.get(n, 1)
         for p in range(np_):
             tasks.append(("c14_align_grid", (n, p, np_)))
+    tasks.append(("c14_align_noise", (3 if thorough else 2,)))
+    nn = 16000 if thorough else 1600
+    for i in range(4):
+        tasks.append(("c14_align_noise_rnd", (seed * 1000 + 70 + i, nn // 4)))
     parts = 8
     for p in range(parts):
         tasks.append(("c14_morph_grid", (p, parts)))
@@ -1804,9 +1934,13 @@ def run_c14(tier, seed, jobs):
              "crossing all occur) + %d random decimal cases (references at exactly +-maxDifference, equidistant, outside); "
              "alignBoundariesAcrossTiers: textgrids {reference, interval tier on 3 cells, point tier of <=2 points} x all "
              "reference sets of 0..%d times on a 0.5 grid x maxDifference {0.25,0.5} x 3 tier orders (rotating) + %d random; "
+             "float-noise alignment: all choices of 1..%d reference times among %d (reference, float-noise twin) pairs (0.1+0.2 vs "
+             "0.3, 1.1+2.2 vs 3.3, x*(1+1e-10), ...; differences 1e-17..1e-10) x reference class x maxDifference {0.005,0.05} x "
+             "10 textgrid shapes (1-4 non-reference interval/point tiers: noise-only, real jitter, mixed, far away; reference "
+             "position rotating) + %d random textgrids, resulting timestamps compared bit-exactly (==); "
              "morph: all 153 source tiers on 4 cells of 0.5 x 2 labels x all 34 target tiers on 4 cells of 0.25 x filters "
              "{None,{a},{b},{},{a,b}} x 2 spans (mismatched counts and empty tiers as error cases) + %d random decimal pairs "
-             "(tolerance 1e-9); seed=%d" % (maxref, nr, maxaref, nr // 2, nr, seed))
+             "(tolerance 1e-9); seed=%d" % (maxref, nr, maxaref, nr // 2, 3 if thorough else 2, len(_noise_pairs()), nn, nr, seed))
     return _result("C14: dejitter (both tier classes), alignBoundariesAcrossTiers, IntervalTier.morph against the property text "
                    "(exact arithmetic on dyadic grids, fractions for the threshold)", bound, True, t0, driven)
 
